@@ -343,7 +343,7 @@ impl Frame {
                         .store(bitstream.num_read_bits(), Ordering::Relaxed);
                     Ok(lf_global)
                 }
-                Err(e) if !loaded && e.unexpected_eof() => Err(e),
+                Err(e) if !loaded && (e.unexpected_eof() || e.out_of_memory()) => Err(e),
                 Err(e) => {
                     // Truncated data can fail in ways other than EOF (bits past the end read as zero):
                     // while the section is incomplete this only means "need more data".
@@ -422,6 +422,7 @@ impl Frame {
                         .store(bitstream.num_read_bits(), Ordering::Relaxed);
                     Some(Ok(result))
                 }
+                Err(e) if !loaded && e.out_of_memory() => Some(Err(e)),
                 Err(e) if !loaded && e.unexpected_eof() => None,
                 Err(e) => {
                     // Truncated data can fail in ways other than EOF (bits past the end read as zero):
@@ -454,7 +455,7 @@ impl Frame {
                     pool: &self.pool,
                 },
             );
-            if allow_partial && result.is_err() {
+            if allow_partial && matches!(&result, Err(e) if !e.out_of_memory()) {
                 return None;
             }
             Some(result)
@@ -546,7 +547,7 @@ impl Frame {
                         .store(bitstream.num_read_bits(), Ordering::Relaxed);
                     Ok(result)
                 }
-                Err(e) if !loaded && e.unexpected_eof() => Err(e),
+                Err(e) if !loaded && (e.unexpected_eof() || e.out_of_memory()) => Err(e),
                 Err(e) => {
                     // Truncated data can fail in ways other than EOF (bits past the end read as zero):
                     // while the section is incomplete this only means "need more data".
